@@ -27,11 +27,17 @@ META = {
 
 
 def _whitelist(ctx):
+    """the interchange versions RawX12File.__init__ lets through: the literal collection self.icvn is tested against, or
+    the members / keys of the module-level constant it is tested against"""
     fn = ctx.func('rawx12file', 'RawX12File.__init__')
+    modc = A.module_constants(ctx.mod('rawx12file').tree)
     for n in ast.walk(fn):
-        if isinstance(n, ast.Compare) and isinstance(n.ops[0], (ast.NotIn, ast.In)) and path_of(n.left) == 'self.icvn' \
-                and isinstance(n.comparators[0], (ast.Tuple, ast.List, ast.Set)):
-            return {A.const(x) for x in n.comparators[0].elts}
+        if isinstance(n, ast.Compare) and isinstance(n.ops[0], (ast.NotIn, ast.In)) and path_of(n.left) == 'self.icvn':
+            c = n.comparators[0]
+            if isinstance(c, (ast.Tuple, ast.List, ast.Set)):
+                return {A.const(x) for x in c.elts}
+            if isinstance(c, ast.Name) and isinstance(modc.get(c.id), (tuple, frozenset, dict)):
+                return set(modc[c.id])
     raise AnalysisError('RawX12File.__init__: version whitelist not found')
 
 
